@@ -81,6 +81,15 @@ type Ctx struct {
 	nontriv  bool
 	Verbose  io.Writer
 	Viol     *Violation
+	// Only, if set, restricts which violation kinds this case reports: a
+	// workload written for another property may be run under this property's
+	// monitors only (C17 deep cases); a divergence of the other property's
+	// model then ends the case quietly instead of being reported under the
+	// wrong property.
+	Only func(kind string) bool
+	// observation gaps (see Observe)
+	gaps    bool
+	gapLeft int
 	// OnCall, if set, runs at every Begin BEFORE the new call is recorded, so
 	// a Fail raised inside it is attributed to the call that just returned
 	// (C17's per-call output monitor on workloads written for other properties).
@@ -128,6 +137,36 @@ func (c *Ctx) State(h uint64) {
 	c.St.States[h] = struct{}{}
 }
 
+// SetGaps switches the case to gapped observation: the monitors then look at
+// the container only after every 1st..5th mutating call instead of after each
+// one. A container that repairs or compacts itself whenever it is observed
+// (lazy deletion, memoised views) behaves perfectly under a monitor that
+// observes after every call; the gaps let several mutating calls run back to
+// back, as ordinary callers do, before the next observation.
+func (c *Ctx) SetGaps(on bool) { c.gaps = on; c.gapLeft = 0 }
+
+// Observe reports whether the monitor should run its observers now. The
+// models are updated on every call regardless; return values of the calls
+// themselves are always checked.
+func (c *Ctx) Observe() bool {
+	if !c.gaps {
+		return true
+	}
+	if c.gapLeft > 0 {
+		c.gapLeft--
+		c.St.Counters["obs:skipped-by-observation-gap"]++
+		return false
+	}
+	c.gapLeft = c.R.Intn(5)
+	return true
+}
+
+// InGap reports whether observers are currently being skipped.
+func (c *Ctx) InGap() bool { return c.gaps && c.gapLeft > 0 }
+
+// ObserveNow ends the current gap (used for the final comparison of a case).
+func (c *Ctx) ObserveNow() { c.gapLeft = 0 }
+
 // Nontrivial marks the case as satisfying the property's non-triviality rule.
 func (c *Ctx) Nontrivial() { c.nontriv = true }
 
@@ -147,6 +186,10 @@ func (c *Ctx) traceStrings() []string {
 // Fail records a violation observed at the current call and ends the case
 // (later comparisons against a diverged model would only cascade).
 func (c *Ctx) Fail(kind, disc, format string, a ...any) {
+	if c.Only != nil && !c.Only(kind) {
+		c.St.Counters["case-ended-by-another-property's-oracle(not reported here)"]++
+		panic(abortCase{})
+	}
 	c.fail(c.cur, kind, disc, fmt.Sprintf(format, a...), "")
 	panic(abortCase{})
 }
